@@ -5,6 +5,7 @@ import (
 	"encoding/json"
 	"errors"
 	"fmt"
+	"math/big"
 	"net/url"
 	"strings"
 	"time"
@@ -118,22 +119,28 @@ func (d *destination) unlock(now, end common.Timestamp, dry bool) (
 		full   = d.full(end)   // full time range left
 		period = d.period(now) // current vesting period
 		ending = now == end    // pool ending, should drain all
-
-		ratio = 1.0 // vesting ratio for the period
 	)
 	left, err := d.left() // tokens left
 	if err != nil {
 		return 0, err
 	}
 
-	// also, the ending protects against zero division error
-	if !ending {
-		ratio = float64(period) / float64(full)
-	}
-
-	amount, err = currency.MultFloat64(left, ratio)
-	if err != nil {
-		return 0, err
+	// Integer arithmetic: float64 cannot represent amounts above 2^53
+	// exactly, so left*ratio could exceed left (or fall short of it at the
+	// end). Also, the ending protects against zero division error.
+	if ending {
+		amount = left
+	} else {
+		if period < 0 || full <= 0 {
+			return 0, currency.ErrNegativeValue
+		}
+		var v = new(big.Int).Mul(new(big.Int).SetUint64(uint64(left)),
+			big.NewInt(int64(period)))
+		v.Div(v, big.NewInt(int64(full)))
+		if !v.IsUint64() || v.Uint64() > uint64(left) {
+			return 0, currency.ErrUint64MultOverflow
+		}
+		amount = currency.Coin(v.Uint64())
 	}
 
 	if !dry {
